@@ -46,6 +46,7 @@ type U struct {
 	uris    []string
 	proofBz []byte
 	emptyPool, resetPool uint64
+	dry                  bool // execMsg runs on a discarded branch
 }
 
 type callRes struct {
@@ -225,6 +226,7 @@ func suiteUntrusted(e *Env) {
 	}
 	if !u.aborted {
 		u.lpCalcSection()
+		u.lpMsgSection()
 	}
 	if !u.aborted {
 		u.heavySection()
